@@ -131,6 +131,13 @@ class Attribute:
 #
 
 
+def _check_runtime_init(target, value):
+    # apply the type checks of the compile time constructor
+    # to objects that are initialized from runtime values
+    if isinstance(value, TypeQualifier) and issubclass(target.type, BitVector):
+        target.type(_decay(value))
+
+
 def _decay(val):
     if isinstance(val, TypeQualifier):
         return val._value
@@ -858,6 +865,8 @@ class TypeQualifier(TypeQualifierBase, metaclass=_TypeQualifier):
 
         if value is None or is_primitive(value) and value._is_uninitialized():
             return intr_op._IntrinsicDeclaration(self, None)
+
+        _check_runtime_init(self, value)
         return intr_op._IntrinsicDeclaration(self, value)
 
     @_intrinsic_replacement(__bool__)
@@ -1382,6 +1391,8 @@ class Signal(TypeQualifier):
 
         if value is None or is_primitive(value) and value._is_uninitialized():
             return intr_op._IntrinsicDeclaration(self, None, delayed_init)
+
+        _check_runtime_init(self, value)
         return intr_op._IntrinsicDeclaration(self, value, delayed_init)
 
     #
